@@ -244,6 +244,11 @@ pub fn walk(sc: &WalkScenario) -> WalkOutcome {
                 None => {
                     let i = actor_of(k);
                     let down = rf.down.get(i).cloned().unwrap_or(false);
+                    // a message that leaves the network without a drop step and without reaching a
+                    // live actor's handler has vanished undelivered
+                    if matches!(k, AKey::Deliver(..)) && d.net.len() < cur.net.len() && (down || i >= rf.actors.len()) {
+                        v.push(Violation::new("C07", "vanished-undelivered", format!("{:?} removes the message from the network although the destination is {} (no drop step, no handler ran)", k, if down { "crashed" } else { "not an actor" })));
+                    }
                     if matches!(k, AKey::Crash(_)) {
                         v.push(Violation::new("C09", "crash-offer", format!("crash of actor {} offered with {} of {} allowed actors down (or already down: {})", i, rf.down.iter().filter(|d| **d).count(), sc.sys.max_crashes, down)));
                     } else if down && !matches!(k, AKey::Drop(..)) {
